@@ -51,6 +51,17 @@ class StmtMixin:
     def ex_Expr(self, s):
         if isinstance(s.value, ast.Constant):
             return  # docstring
+        if isinstance(s.value, ast.Yield):
+            # generator function under a contract (key `generator`): the values yielded are collected, in order, in
+            # the local _yielded, which is the function's result (the body is taken as run to completion)
+            cur = self.frame.locals.get('_yielded')
+            if cur is None or s.value.value is None:
+                raise Unsupported('yield outside a function declared as generator')
+            val = self.ev(s.value.value)
+            t = cur.t
+            new = self.opaque_list(V(t, L.l_append(t, cur.z, coerce(val, t.elem).z)))
+            self.frame.locals['_yielded'] = new
+            return
         self.ev(s.value)
 
     def ex_Return(self, s):
@@ -352,16 +363,39 @@ class StmtMixin:
         self.frame.locals[s.name] = Py('closure', s, self.frame)
 
     # ---------------------------------------------------------------- loops
-    def loop_spec(self):
+    def loop_spec(self, node=None):
+        '''Loop entries of a contract are numbered in source order of the function's for / while statements
+        (nested loops after their enclosing loop).  Loops of a function inlined for want of a contract take the
+        calling contract's entries in execution order.'''
         owner = self.frame.loops_from or self.frame
-        ordn = owner.loop_ord
-        owner.loop_ord += 1
+        if self.frame.loops_from is None and node is not None and self.frame.fdef is not None:
+            order = getattr(self.frame, 'loop_index', None)
+            if order is None:
+                loops = []
+
+                def visit(n):
+                    for c in ast.iter_child_nodes(n):
+                        if isinstance(c, (ast.FunctionDef, ast.AsyncFunctionDef, ast.Lambda, ast.ClassDef)):
+                            continue
+                        if isinstance(c, (ast.For, ast.While)):
+                            loops.append(c)
+                        visit(c)
+                visit(self.frame.fdef)
+                order = {id(n): i for i, n in enumerate(loops)}
+                self.frame.loop_index = order
+            ordn = order.get(id(node))
+            if ordn is None:
+                ordn = owner.loop_ord
+            owner.loop_ord = max(owner.loop_ord, ordn + 1)
+        else:
+            ordn = owner.loop_ord
+            owner.loop_ord += 1
         fs = owner.fspec
         ls = fs.loops.get(ordn) if fs is not None else None
         return ordn, ls
 
     def ex_While(self, s):
-        ordn, ls = self.loop_spec()
+        ordn, ls = self.loop_spec(s)
         if s.orelse:
             raise Unsupported('while-else')
         if ls is None:
@@ -451,7 +485,7 @@ class StmtMixin:
                 self.st.ghost[g] = fresh(self.st.ghost[g].t, 'g_' + g)
 
     def ex_For(self, s):
-        ordn, ls = self.loop_spec()
+        ordn, ls = self.loop_spec(s)
         if s.orelse:
             raise Unsupported('for-else')
         it = self.ev(s.iter)
